@@ -40,6 +40,12 @@ pub struct Case {
     pub script: Vec<RStep>,
     /// (byte offset clipped to the stream length, error kind index)
     pub err_at: Option<(usize, u8)>,
+    /// things done to the Framed between polls, none of which may change what it yields:
+    /// (before poll number n, what): 0 = into_parts + from_parts, 1 = into_map_io(identity),
+    /// 2 = into_map_codec(identity), 3 = close the write half (flush + shutdown of the transport's
+    /// write direction; the peer keeps sending)
+    #[serde(default)]
+    pub between: Vec<(u16, u8)>,
 }
 
 #[derive(Clone, Debug, PartialEq)]
@@ -149,7 +155,34 @@ where
     Expected { items, ends }
 }
 
+/// closing the write half needs the codec's `Encoder` item type
+trait CloseWrite: Sized {
+    fn close_write(f: Pin<&mut Framed<MockIo, Self>>, cx: &mut Context<'_>) -> Poll<io::Result<()>>;
+}
+impl CloseWrite for LenU8 {
+    fn close_write(f: Pin<&mut Framed<MockIo, Self>>, cx: &mut Context<'_>) -> Poll<io::Result<()>> {
+        f.close::<Vec<u8>>(cx)
+    }
+}
+impl CloseWrite for LenU16 {
+    fn close_write(f: Pin<&mut Framed<MockIo, Self>>, cx: &mut Context<'_>) -> Poll<io::Result<()>> {
+        f.close::<Vec<u8>>(cx)
+    }
+}
+impl CloseWrite for LinesCodec {
+    fn close_write(f: Pin<&mut Framed<MockIo, Self>>, cx: &mut Context<'_>) -> Poll<io::Result<()>> {
+        f.close::<&str>(cx)
+    }
+}
+impl CloseWrite for BytesCodec {
+    fn close_write(f: Pin<&mut Framed<MockIo, Self>>, cx: &mut Context<'_>) -> Poll<io::Result<()>> {
+        f.close::<bytes::Bytes>(cx)
+    }
+}
+
 struct Run {
+    converted_with_buffered: bool,
+    closed_before_end: bool,
     items: Vec<Item>,
     none_seen: u32,
     pendings: u32,
@@ -158,12 +191,12 @@ struct Run {
 
 fn drive<D>(codec: D, c: &Case, err: Option<(usize, io::ErrorKind)>, want_items: usize, ends: bool) -> Result<Run, vcore::Fail>
 where
-    D: Decoder<Error = io::Error> + Unpin,
+    D: Decoder<Error = io::Error> + Unpin + CloseWrite,
     D::Item: ToItem,
 {
     let io = MockIo { stream: c.stream.clone(), rscript: c.script.iter().copied().collect(), err_at: err, ..Default::default() };
     let mut framed = Framed::new(io, codec);
-    let mut run = Run { items: vec![], none_seen: 0, pendings: 0, polls: 0 };
+    let mut run = Run { converted_with_buffered: false, closed_before_end: false, items: vec![], none_seen: 0, pendings: 0, polls: 0 };
     let max_polls = (c.script.len() + c.stream.len() + want_items + 16) as u32;
     // BytesCodec: the number of frames is arrival dependent, poll until None
     let open_ended = matches!(c.codec, Codec::Bytes);
@@ -172,6 +205,26 @@ where
         vensure!(run.polls <= max_polls, "C13/no-progress", "Framed made no progress within {} polls ({} items so far, {} expected)", max_polls, run.items.len(), want_items);
         let (cw, w) = count_waker();
         let mut cx = Context::from_waker(&w);
+        for (at, what) in &c.between {
+            if *at as u32 != run.polls {
+                continue;
+            }
+            // mid-stream: frames are still to come (some of them usually sit in the read buffer)
+            let buffered = run.none_seen == 0 && run.items.len() < want_items && run.polls > 1;
+            match what % 4 {
+                0 => framed = Framed::from_parts(framed.into_parts()),
+                1 => framed = framed.into_map_io(|io| io),
+                2 => framed = framed.into_map_codec(|c| c),
+                _ => {
+                    let r = D::close_write(Pin::new(&mut framed), &mut cx);
+                    vensure!(matches!(r, Poll::Ready(Ok(()))), "C13/close-failed", "closing the write half of an idle Framed returned {:?}", r.map(|x| x.map_err(|e| e.kind())));
+                    let _ = framed.io_mut().take_events();
+                    run.closed_before_end |= run.none_seen == 0;
+                    continue;
+                }
+            }
+            run.converted_with_buffered |= buffered;
+        }
         let r = Pin::new(&mut framed).poll_next(&mut cx);
         let evs = framed.io_mut().take_events();
         let transport_pending = evs.iter().any(|e| *e == Ev::ReadPending);
@@ -273,6 +326,8 @@ fn check_inner(c: &Case) -> CaseResult {
     obs.label_if(run.items.iter().any(|i| matches!(i, Item::Err(k) if k == "InvalidData" || k == "Other")), "decode-error");
     obs.label_if(run.items.iter().any(|i| matches!(i, Item::Frame(f) if f.len() > 8192) || matches!(i, Item::Line(l) if l.len() > 8192)), "frame>8KiB");
     obs.label_if(frames >= 2 && chunked, "multi-frame-chunked");
+    obs.label_if(run.converted_with_buffered, "converted-mid-stream");
+    obs.label_if(run.closed_before_end, "write-half-closed-while-reading");
     Ok(obs)
 }
 
@@ -368,11 +423,11 @@ pub fn strategy(long: bool) -> impl Strategy<Value = Case> {
     prop::sample::select(if long { vec![Codec::LenU16, Codec::LenU16, Codec::Lines, Codec::Lines, Codec::Bytes, Codec::LenU8] } else { vec![Codec::LenU8, Codec::LenU16, Codec::Lines, Codec::Bytes] })
         .prop_flat_map(move |codec| {
             let stream = if long { stream_for(codec, true) } else { prop_oneof![3 => stream_for(codec, false), 1 => raw_stream().boxed()].boxed() };
-            (Just(codec), stream, script(long), prop::option::weighted(0.35, (any::<u16>(), 0u8..4)))
+            (Just(codec), stream, script(long), prop::option::weighted(0.35, (any::<u16>(), 0u8..4)), prop::collection::vec((1u16..14, 0u8..4), 0..3))
         })
-        .prop_map(|(codec, stream, script, e)| {
+        .prop_map(|(codec, stream, script, e, between)| {
             let err_at = e.map(|(at, k)| (vcore::pick(at, stream.len() + 1), k));
-            Case { codec, stream, script, err_at }
+            Case { codec, stream, script, err_at, between }
         })
 }
 
@@ -387,19 +442,21 @@ pub fn case_from_bytes(data: &[u8]) -> Case {
     }
     let e: u8 = u.arbitrary().unwrap_or(0);
     let at: u8 = u.arbitrary().unwrap_or(0);
+    let bt: u8 = u.arbitrary().unwrap_or(0);
     let stream = u.take_rest().to_vec();
     let err_at = if e % 3 == 0 { Some(((at as usize * (stream.len() + 1)) >> 8, e / 3)) } else { None };
-    Case { codec, stream, script, err_at }
+    let between = if bt % 2 == 0 { vec![] } else { vec![(1 + (bt as u16 >> 3) % 12, (bt >> 1) % 4)] };
+    Case { codec, stream, script, err_at, between }
 }
 
-const RULE: &str = "(codec in {u8-length-prefixed with default decode_eof, u16-length-prefixed with stateful decode_eof, LinesCodec, BytesCodec}, byte stream built from frames of boundary-rich sizes plus truncation/junk or raw delimiter-rich bytes, read script of chunk sizes and Pendings, optional one I/O error at a byte offset) run through Framed::poll_next on a scripted AsyncRead with a fresh waker per poll, compared item by item with a fresh codec decoding the whole stream at once; non-trivial = >=2 frames with a chunk boundary or Pending inside the stream, or stream > 8 KiB; distinct by the whole case";
+const RULE: &str = "(codec in {u8-length-prefixed with default decode_eof, u16-length-prefixed with stateful decode_eof, LinesCodec, BytesCodec}, byte stream built from frames of boundary-rich sizes plus truncation/junk or raw delimiter-rich bytes, read script of chunk sizes and Pendings, optional one I/O error at a byte offset, and up to two things done to the Framed between polls that must not change what it yields: into_parts+from_parts / into_map_io / into_map_codec / closing its write half while the peer keeps sending) run through Framed::poll_next on a scripted AsyncRead with a fresh waker per poll, compared item by item with a fresh codec decoding the whole stream at once; non-trivial = >=2 frames with a chunk boundary or Pending inside the stream, or stream > 8 KiB; distinct by the whole case";
 
 pub fn run(ctx: &Ctx) {
     ctx.assume("test codecs are prefix-consistent (decode on a longer buffer yields the same leading frames), as LinesCodec and length-prefixed codecs are; BytesCodec is judged by concatenation only");
     ctx.run_corpus::<Case>("framed-read", check_case);
     ctx.run_random(
         Part::new("framed-read", RULE, ctx.tier.scale(150_000, 10))
-            .floors(&[("pending", 0.3), ("io-error", 0.2), ("multi-frame-chunked", 0.3), ("decode-error", 0.05)]),
+            .floors(&[("pending", 0.3), ("io-error", 0.2), ("multi-frame-chunked", 0.3), ("decode-error", 0.05), ("converted-mid-stream", 0.1), ("write-half-closed-while-reading", 0.1)]),
         || strategy(false),
         check_case,
     );
